@@ -255,9 +255,9 @@ def run(ctx: Ctx) -> None:
     ji = m.method(jt, "__init__", own=True)
     r.check("self.abs_addr = abs_addr" in " ".join(ast.unparse(ji.node).split()), "J|stored", ji.loc(), "abs_addr is not stored as given")
     # address_count advances by the length of every emitted instruction (so 'same address' is well defined)
-    txt = " ".join(ast.unparse(wi.node).split())
-    r.check("address_count += instruction_map[line_parsed.mnemonic.lower()].length" in txt and "address_count += ECALL.length" in txt
-            and "address_count += EBREAK.length" in txt, "address_count", wi.loc(), "address_count no longer advances once per emitted instruction")
+    from .c04 import advances_of, emit_counter, emit_pass_checks
+    wi2, c2, l2 = emit_counter(ctx)
+    emit_pass_checks(ctx, r, lambda f, c_, l_: advances_of(ctx, f, c_, l_), wi2, c2, l2)
 
     r = ctx.rule("R14.list", "listing = str() of each stored instruction, by address")
     gr = m.method("InstructionMemory", "get_representation", own=True)
